@@ -18,7 +18,7 @@ class MultiValueTracker(Tracker):
         """
         super().__init__()
         self.tracked_value: typing.Dict[Tracker] = {}
-        self._tracked_keys: typing.Set = set()
+        self._tracked_keys: typing.Dict = {}  # used as an insertion-ordered set (a set iterates in string-hash order)
         self._base_tracker = copy.deepcopy(base_tracker)
 
     def update(
@@ -33,16 +33,16 @@ class MultiValueTracker(Tracker):
         Args:
             values (dict): A dictionary mapping from keys to numeric values to be added to the tracker.
         """
-        keys_in_update = set(values.keys())
-        for key in keys_in_update:
+        for key in values:
             try:
                 self.tracked_value[key].update(values[key])
             except KeyError:
                 self.tracked_value[key] = copy.deepcopy(self._base_tracker)
                 self.tracked_value[key].update(values[key])
-                self._tracked_keys.add(key)
-        for key in self._tracked_keys - keys_in_update:
-            self.tracked_value[key].update(0)  # is zero the right value to add?
+                self._tracked_keys[key] = None
+        for key in self._tracked_keys:
+            if key not in values:
+                self.tracked_value[key].update(0)  # is zero the right value to add?
         self.N += 1
         return self
 
